@@ -509,3 +509,8 @@ LEVEL_NOTE = ("Trusted: Coq kernel; the transcription Model/Ebp.v (checked by th
               "of the wire format; extraction and executor glue; Go's time and encoding/binary packages.")
 TECHNIQUE = ("Coq proof (parser-inverts-serialiser with the uint8 cursor as ghost length; Z div/mod arithmetic for the time) + "
              "model/implementation correspondence, exhaustive on the flag/shape lattice")
+
+
+# coverage round (notes/coverage.md): cases and support theorems for exported identifiers outside the property text
+from gen import covlib
+covlib.install(globals())
